@@ -94,6 +94,58 @@ func runC06(c *Check) {
 	c.focusOnce()
 	c.filterOrder(applyFocus)
 	c.perLocationFilters(byName)
+	c.tagKeySplit(compileTag)
+}
+
+// tagKeySplit (R3d): a tag filter "key=expr" is split at the first '=' only, so that the
+// expression itself may contain '='.  The separating call in compileTagFilter must be one
+// that yields at most two pieces (SplitN with n=2, Cut, Index); an unbounded Split makes
+// every expression with a second '=' lose its key restriction.
+func (c *Check) tagKeySplit(compileTag *ssa.Function) {
+	p := c.P
+	n := 0
+	for _, b := range compileTag.Blocks {
+		for _, ins := range b.Instrs {
+			call, ok := ins.(*ssa.Call)
+			if !ok || call.Call.StaticCallee() == nil || fnPkgPath(call.Call.StaticCallee()) != "strings" {
+				continue
+			}
+			name := call.Call.StaticCallee().Name()
+			sepIdx := 1
+			if len(call.Call.Args) < 2 {
+				continue
+			}
+			sep, isStr := constString(call.Call.Args[sepIdx])
+			if !isStr {
+				if k, ok := constInt(call.Call.Args[sepIdx]); ok && k == '=' {
+					sep, isStr = "=", true
+				}
+			}
+			if !isStr || sep != "=" {
+				continue
+			}
+			n++
+			key := "tagkey-split"
+			pos := p.relFile(call.Pos())
+			switch name {
+			case "SplitN", "SplitAfterN":
+				if k, ok := constInt(call.Call.Args[2]); ok && k == 2 {
+					c.ok("C06-R3", key, pos, "key and expression of a tag filter are separated at the first '='", "strings."+name+"(value, \"=\", 2)")
+				} else {
+					c.bad("C06-R3", key, pos, "compileTagFilter splits key=expr into a number of pieces other than two: an expression containing '=' is not matched against its key")
+				}
+			case "Cut", "Index", "IndexByte", "IndexRune":
+				c.ok("C06-R3", key, pos, "key and expression of a tag filter are separated at the first '='", "strings."+name)
+			case "Split", "SplitAfter", "LastIndex", "LastIndexByte", "Fields", "FieldsFunc":
+				c.bad("C06-R3", key, pos, "compileTagFilter separates key from expression with strings."+name+", which does not stop at the first '=': for key=a=b the filter is no longer restricted to the key (tagfocus keeps nothing, tagignore drops nothing)")
+			default:
+				c.undecided("C06-R3", key, pos, "unrecognised way of separating key from expression: strings."+name)
+			}
+		}
+	}
+	if n == 0 {
+		c.undecided("C06-R3", "tagkey-split", p.relFile(compileTag.Pos()), "compileTagFilter no longer separates an optional key at '='")
+	}
 }
 
 // filterOrder (R3c): samples are selected on their labels before labels are hidden.
@@ -222,6 +274,105 @@ func (c *Check) perLocationFilters(byName *ssa.Function) {
 			c.ok("C06-R4", key, p.relFile(call.Pos()), flt.param+" is applied to every location when it is given", "no path through one iteration of the location loop avoids the "+flt.callee+" call under "+flt.param+" != nil")
 		}
 	}
+	c.selectBeforeRewrite(byName)
+}
+
+// selectBeforeRewrite (R5): focus and ignore select samples by the frames the location
+// really has.  The name matches whose outcome is recorded in the selection table (the map
+// later handed to focusedAndNotIgnored) must therefore be evaluated before show/hide
+// rewrite the location's lines in the same iteration.
+func (c *Check) selectBeforeRewrite(byName *ssa.Function) {
+	p := c.P
+	// the selection table
+	var sel ssa.Value
+	for _, b := range byName.Blocks {
+		for _, ins := range b.Instrs {
+			if cl, ok := ins.(*ssa.Call); ok && cl.Call.StaticCallee() != nil && cl.Call.StaticCallee().Name() == "focusedAndNotIgnored" && len(cl.Call.Args) == 2 {
+				sel = cl.Call.Args[1]
+			}
+		}
+	}
+	if sel == nil {
+		c.undecided("C06-R5", "select-first", p.relFile(byName.Pos()), "FilterSamplesByName no longer passes a selection table to focusedAndNotIgnored")
+		return
+	}
+	updatesSel := func(b *ssa.BasicBlock) bool {
+		for _, ins := range b.Instrs {
+			if mu, ok := ins.(*ssa.MapUpdate); ok && mu.Map == sel {
+				return true
+			}
+		}
+		return false
+	}
+	var selCalls []*ssa.Call
+	var rewrites []*ssa.Store
+	for _, b := range byName.Blocks {
+		for _, ins := range b.Instrs {
+			switch x := ins.(type) {
+			case *ssa.Call:
+				if x.Call.StaticCallee() == nil || x.Call.StaticCallee().Name() != "matchesName" {
+					continue
+				}
+				if iff, ok := b.Instrs[len(b.Instrs)-1].(*ssa.If); ok && iff.Cond == ssa.Value(x) {
+					for _, sc := range b.Succs {
+						if updatesSel(sc) {
+							selCalls = append(selCalls, x)
+							break
+						}
+					}
+				}
+			case *ssa.Store:
+				if fa, ok := x.Addr.(*ssa.FieldAddr); ok {
+					if T, F := fieldOf(fa.X.Type(), fa.Field); T == "profile.Location" && F == "Line" {
+						rewrites = append(rewrites, x)
+					}
+				}
+			}
+		}
+	}
+	if len(selCalls) < 2 || len(rewrites) < 2 {
+		c.undecided("C06-R5", "select-first", p.relFile(byName.Pos()), fmt.Sprintf("expected the focus and ignore matches and the show and hide rewrites in FilterSamplesByName, found %d selecting matches and %d line rewrites", len(selCalls), len(rewrites)))
+		return
+	}
+	for _, call := range selCalls {
+		var hdr *ssa.BasicBlock
+		for d := call.Block(); d != nil && hdr == nil; d = d.Idom() {
+			for _, pred := range d.Preds {
+				if d.Dominates(pred) && (pred == call.Block() || blockReachesPlain(call.Block(), pred)) {
+					hdr = d
+				}
+			}
+		}
+		key := fmt.Sprintf("select-first:%s", argName(call.Call.Args[len(call.Call.Args)-1]))
+		if hdr == nil {
+			c.undecided("C06-R5", key, p.relFile(call.Pos()), "selecting match is not inside the location loop")
+			continue
+		}
+		bad := ""
+		for _, st := range rewrites {
+			if st.Block() == call.Block() {
+				if instrIndex(st) < instrIndex(call) {
+					bad = p.relFile(st.Pos())
+				}
+				continue
+			}
+			if blockReachesAvoid(st.Block(), call.Block(), hdr) {
+				bad = p.relFile(st.Pos())
+			}
+		}
+		if bad == "" {
+			c.ok("C06-R5", key, p.relFile(call.Pos()), "the match that selects samples sees the location's original lines", "no store to Location.Line reaches it within one iteration of the location loop")
+		} else {
+			c.bad("C06-R5", key, p.relFile(call.Pos()), "the match that decides whether samples are kept is evaluated after the location's lines were rewritten by show/hide ("+bad+"): a frame that is both selected and hidden no longer counts, so focus drops and ignore keeps samples it should not")
+		}
+	}
+}
+
+func argName(v ssa.Value) string {
+	if pr, ok := v.(*ssa.Parameter); ok {
+		return pr.Name()
+	}
+	return v.Name()
 }
 
 func allAnon(f *ssa.Function) []*ssa.Function {
